@@ -142,10 +142,10 @@ let parse_op (toks : string list) : op =
   | ["clone"; v; d] -> OClone (nat v, nat d)
   | ["clone_empty"; v; d] -> OCloneEmpty (nat v, nat d)
   | ["clone_empty_in"; v; d; bk] -> OCloneEmptyIn (nat v, nat d, parse_bk bk)
-  | ["reserve"; v; n] -> OReserve (nat v, nn n)
-  | ["reserve_exact"; v; n] -> OReserveExact (nat v, nn n)
-  | ["shrink_to_fit"; v] -> OShrinkToFit (nat v)
-  | ["shrink_to"; v; n] -> OShrinkTo (nat v, nn n)
+  | ["reserve"; v; n] | ["treserve"; v; n] -> OReserve (nat v, nn n)
+  | ["reserve_exact"; v; n] | ["treserve_exact"; v; n] -> OReserveExact (nat v, nn n)
+  | ["shrink_to_fit"; v] | ["tshrink_to_fit"; v] -> OShrinkToFit (nat v)
+  | ["shrink_to"; v; n] | ["tshrink_to"; v; n] -> OShrinkTo (nat v, nn n)
   | ["views"; v] -> OViews (nat v)
   | ["spare_write"; a; v; k] -> OSpareWrite (parse_api a, nat v, nn k)
   | ["set_len"; v; n] -> OSetLen (nat v, nn n)
